@@ -39,11 +39,13 @@ import (
 	"github.com/AdguardTeam/AdGuardHome/internal/aghnet"
 	"github.com/AdguardTeam/AdGuardHome/internal/c05util"
 	"github.com/AdguardTeam/AdGuardHome/internal/client"
+	"github.com/AdguardTeam/AdGuardHome/internal/dhcpsvc"
 	"github.com/AdguardTeam/AdGuardHome/internal/filtering"
 	"github.com/AdguardTeam/AdGuardHome/internal/filtering/safesearch"
 	"github.com/AdguardTeam/AdGuardHome/internal/querylog"
 	"github.com/AdguardTeam/AdGuardHome/internal/stats"
 	"github.com/AdguardTeam/AdGuardHome/internal/vutil"
+	"github.com/AdguardTeam/AdGuardHome/internal/whois"
 	"github.com/AdguardTeam/dnsproxy/proxy"
 	"github.com/AdguardTeam/golibs/logutil/slogutil"
 	"github.com/AdguardTeam/golibs/netutil"
@@ -335,7 +337,7 @@ var c05DNSKinds = []string{"plain", "blocked", "rewrite", "safebrowsing", "paren
 var c05AdminOps = []string{
 	"access_set", "clients", "set_rules", "filter_add_remove", "filtering_config", "refresh",
 	"rewrites", "blocked_services", "protection_pause", "safesearch", "safebrowsing_parental",
-	"querylog_config", "querylog_read", "stats_config", "stats_read", "dns_config", "stats_reset", "querylog_clear", "mixed",
+	"querylog_config", "querylog_read", "stats_config", "stats_read", "dns_config", "stats_reset", "querylog_clear", "clients_list", "mixed",
 }
 
 func c05GenRun(r *rand.Rand, emit vutil.Emit, n int) {
@@ -440,6 +442,73 @@ func (c c05Checker) Check(host string) (block bool, err error) {
 	return false, nil
 }
 
+// c05DHCP is a [client.DHCP] with leases, with hostnames, for the addresses
+// the stress queries come from.  Every other call the lease of 127.0.0.1 has
+// another hostname, like a client that renews with a changed name.
+type c05DHCP struct{ n atomic.Uint64 }
+
+var c05ClientAddrs = []netip.Addr{netip.MustParseAddr("127.0.0.1"), netip.MustParseAddr("::1")}
+
+func (d *c05DHCP) host(ip netip.Addr) (host string) {
+	for i, a := range c05ClientAddrs {
+		if a == ip {
+			return fmt.Sprintf("laptop%d-%d", i, d.n.Add(1)/64%2)
+		}
+	}
+
+	return ""
+}
+
+// Leases implements the [client.DHCP] interface for *c05DHCP.
+func (d *c05DHCP) Leases() (leases []*dhcpsvc.Lease) {
+	for i, a := range c05ClientAddrs {
+		leases = append(leases, &dhcpsvc.Lease{
+			IP: a, Hostname: d.host(a), HWAddr: net.HardwareAddr{2, 0, 0, 0, 0, byte(i + 1)},
+		})
+	}
+
+	return leases
+}
+
+// HostByIP implements the [client.DHCP] interface for *c05DHCP.
+func (d *c05DHCP) HostByIP(ip netip.Addr) (host string) { return d.host(ip) }
+
+// MACByIP implements the [client.DHCP] interface for *c05DHCP.
+func (d *c05DHCP) MACByIP(_ netip.Addr) (mac net.HardwareAddr) { return nil }
+
+// clientsList does what GET /control/clients (home.handleGetClients) does with
+// the client storage.
+func (w *c05World) clientsList() {
+	n := 0
+	w.storage.RangeByName(func(c *client.Persistent) (cont bool) { n += len(c.Name); return true })
+	w.storage.UpdateDHCP(context.Background())
+	w.storage.RangeRuntime(func(rc *client.Runtime) (cont bool) {
+		_, host := rc.Info()
+		if wi := rc.WHOIS(); wi != nil {
+			n += len(wi.City)
+		}
+		n += len(host) + rc.Addr().BitLen()
+
+		return true
+	})
+	_ = w.storage.AllowedTags()
+}
+
+// addrUpdate is what the rDNS and WHOIS workers of the address processor do
+// with their results for the addresses of the clients.
+func (w *c05World) addrUpdate(i int) {
+	ip := c05ClientAddrs[i%len(c05ClientAddrs)]
+	var wi *whois.Info
+	if i%2 == 0 {
+		wi = &whois.Info{City: []string{"Ayton", "Beeford"}[i/2%2], Country: "AU", Orgname: "org"}
+	}
+	host := ""
+	if i%3 != 2 {
+		host = fmt.Sprintf("client%d.rdns.example", i%2)
+	}
+	w.storage.UpdateAddress(context.Background(), ip, host, wi)
+}
+
 type c05World struct {
 	// norecurse: a configuration that avoids the two recursive read locks of
 	// serverLock (block hosts given as addresses; the query log's client
@@ -514,6 +583,10 @@ func (w *c05World) findClient(ids []string) (c *querylog.Client, err error) {
 		if cli, ok := w.storage.FindLoose(ip, id); ok {
 			c.Name = cli.Name
 			c.IgnoreQueryLog = cli.IgnoreQueryLog
+		} else if rc := w.storage.ClientRuntime(ip); rc != nil {
+			// the runtime client: read after the storage lock is released
+			_, c.Name = rc.Info()
+			c.WHOIS = rc.WHOIS()
 		}
 		if !w.norecurse {
 			c.Disallowed, c.DisallowedRule = w.srv.IsBlockedClient(ip, id)
@@ -603,8 +676,11 @@ func c05NewWorld(t *testing.T, dir string, wiring string) (w *c05World) {
 	logger := slogutil.NewDiscardLogger()
 	var err error
 
+	// The DHCP server is a source of runtime clients and has leases with
+	// hostnames for the addresses the queries come from (the defaults of
+	// home/config.go: clients.runtime_sources.dhcp is on).
 	w.storage, err = client.NewStorage(ctx, &client.StorageConfig{
-		Logger: logger, Clock: timeutil.SystemClock{}, DHCP: client.EmptyDHCP{},
+		Logger: logger, Clock: timeutil.SystemClock{}, DHCP: &c05DHCP{}, RuntimeSourceDHCP: true,
 	})
 	if err != nil {
 		t.Fatal(err)
@@ -810,6 +886,12 @@ func (w *c05World) adminOp(kind string, i int, r *rand.Rand) {
 			})
 		} else {
 			w.storage.RemoveByName(context.Background(), name)
+		}
+	case "clients_list":
+		w.clientsList()
+		w.addrUpdate(i)
+		if i%8 == 0 {
+			time.Sleep(200 * time.Microsecond)
 		}
 	case "set_rules":
 		switch i % 5 {
@@ -1103,6 +1185,20 @@ func TestVerifC05Child(t *testing.T) {
 			inflight.Store(g, "done")
 		}(g)
 	}
+	// the rDNS / WHOIS workers of the address processor: results for the
+	// addresses of the clients arrive while they are being served
+	adminWG.Add(1)
+	go func() {
+		defer adminWG.Done()
+		for i := 0; ; i++ {
+			select {
+			case <-stop:
+				return
+			case <-time.After(300 * time.Microsecond):
+			}
+			w.addrUpdate(i)
+		}
+	}()
 	for g := 0; g < nAdmin; g++ {
 		adminWG.Add(1)
 		go func(g int) {
